@@ -2735,6 +2735,15 @@ pub fn c20(c: &Collector, g: &mut Guard) {
         // G0 / G1 hold what was designated: DECSC / DECRC / RIS inside the history are judged too
         &|op| matches!(op, Op::Draw(_) | Op::SaveCursor | Op::RestoreCursor | Op::Reset),
     );
+    // the same histories through one parser in 8-bit mode (a parser-side memo of designators)
+    crate::props::parser_words(
+        c,
+        "C20",
+        (4, 1),
+        &["\x1b(0", "\x1b(B", "\x1b)U", "\x0e", "\x0f", "\x1b7", "\x1b8", "\x1bc", "q\u{e9}"],
+        if c.thorough() { 6 } else { 5 },
+        false,
+    );
     // after every history of charset operations the drawn glyph must follow the model: the tree
     // judges the charset ops themselves; drawing is judged from every leaf by the sweeps above
     c.bound("code_points", json!("0..=255 x 4 tables x {G0,G1} x {SI,SO}; 256, 0x2500, 0xFFFD, astral"));
@@ -2742,6 +2751,7 @@ pub fn c20(c: &Collector, g: &mut Guard) {
     g.need(c, "visible_translations");
     g.need(c, "parser_path_transitions");
     g.need(c, "parser_designated");
+    g.need(c, "parser_words");
 }
 
 #[allow(dead_code)]
